@@ -28,15 +28,38 @@ def functions():
 
 
 class _Random:
+    """numpy's global generator as a version counter: get_state returns the current version, seed/other writes create a
+    new one, set_state(v) goes back to v"""
+
     def __init__(self):
+        self.version = 0
+        self.fresh = 0
         self.log = []
 
     def get_state(self):
         self.log.append("get")
-        return ("state", len(self.log))
+        return ("state", self.version)
 
     def set_state(self, s):
-        self.log.append(("set", s))
+        self.log.append("set")
+        if isinstance(s, tuple) and len(s) == 2 and s[0] == "state":
+            self.version = s[1]
+        else:
+            self.fresh += 1
+            self.version = 1000 + self.fresh
+
+    def _write(self, *a, **k):
+        self.fresh += 1
+        self.version = 1000 + self.fresh
+        self.log.append("write")
+
+    seed = _write
+
+    def __getattr__(self, k):
+        if k.startswith("__"):
+            raise AttributeError(k)
+        # any draw from the global generator advances its state
+        return lambda *a, **kw: (self._write(), Sym(z3.Real(core.fresh_name("rand"))))[1]
 
 
 def _run(crop_corner, seed_none):
@@ -101,12 +124,9 @@ def job_poisson(crop_corner, seed_none, timeout_ms):
                ("dtype-as-requested", [], z3.BoolVal(out.dtype == snp.as_dtype("complex64"))),
                ("shape==img_shape", [], z3.And(z3.BoolVal(len(out.shape) == 2), core._lift(out.shape[0]) == ny, core._lift(out.shape[1]) == nx) if len(out.shape) == 2 else z3.BoolVal(False)),
                ("_poisson-called-with-the-seed-and-calib", [], z3.BoolVal(len(calls) >= 1 and all((c["seed"] is None) == seed_none for c in calls)))]
-        # RNG bracket
-        if seed_none:
-            obs.append(("rng:no-get/set_state-without-a-seed", [], z3.BoolVal(rnd.log == [])))
-        else:
-            ok = len(rnd.log) == 2 and rnd.log[0] == "get" and rnd.log[1] == ("set", ("state", 1))
-            obs.append(("rng:global-state-saved-first-and-restored-before-returning", [], z3.BoolVal(ok)))
+        # RNG: under A-numba-rng the jitted kernel never touches numpy's global generator, so poisson() leaves the global state
+        # untouched iff it does not itself write it with anything but a state it saved earlier (the get/set bracket is then redundant)
+        obs.append(("rng:numpy-global-state-at-return-is-the-state-at-entry", [], z3.BoolVal(rnd.version == 0)))
         if len(out.shape) != 2:
             return obs
         k = [z3.Int("k0"), z3.Int("k1")]
